@@ -97,7 +97,7 @@ func (o *seqOutput) complete(q sequence) bool {
 
 type disagreement struct {
 	key  string
-	what string
+	what func() string // formatted only when the disagreement is kept
 	step int
 }
 
@@ -140,12 +140,12 @@ func evalSeq(q sequence, o *seqOutput) evalResult {
 		case 'I':
 			c := classes[s.Class]
 			in := inst{class: int(s.Class), args: s.Args, created: mk.status == "ok"}
-			cls := fmt.Sprintf("%s<%s>", c.name, strings.ReplaceAll(argList(c, s.Args), " ", ""))
+			cls := c.name + "<" + strings.ReplaceAll(argList(c, s.Args), " ", "") + ">"
 			if !c.ctor {
 				if mk.status != "ok" {
 					res.dis = append(res.dis, disagreement{
 						key:  "instantiate-failed/class=" + cls,
-						what: fmt.Sprintf("step %d of [%s]: %s could not be instantiated: %s", j, q, cls, mk.msg),
+						what: func() string { return fmt.Sprintf("step %d of [%s]: %s could not be instantiated: %s", j, q, cls, mk.msg) },
 						step: j})
 				}
 			} else {
@@ -190,17 +190,17 @@ func evalSeq(q sequence, o *seqOutput) evalResult {
 				res.dis = append(res.dis, mismatch(q, j, c, p, via, own, b, s.Val, exp, obs, pred, mk))
 			}
 			if d := valueDesc(int(s.Val), tok); d != "" {
-				cell := fmt.Sprintf("class=%s/prop=%s/own=%s/value=%s/via=%s", c.name, c.props[p], typeNames[own], valNames[s.Val], via)
+				cell := "class=" + c.name + "/prop=" + c.props[p] + "/own=" + typeNames[own] + "/value=" + valNames[s.Val] + "/via=" + via
 				if obs && mk.cur != d {
 					res.dis = append(res.dis, disagreement{
 						key:  "store-mismatch/accepted-not-stored/" + cell,
-						what: fmt.Sprintf("step %d of [%s]: the write did not throw, but the property then reads %s instead of %s", j, q, mk.cur, d),
+						what: func() string { return fmt.Sprintf("step %d of [%s]: the write did not throw, but the property then reads %s instead of %s", j, q, mk.cur, d) },
 						step: j})
 				}
 				if !obs && mk.cur == d {
 					res.dis = append(res.dis, disagreement{
 						key:  "store-mismatch/rejected-but-stored/" + cell,
-						what: fmt.Sprintf("step %d of [%s]: the write threw (%s), but the property then holds the written value %s", j, q, mk.msg, d),
+						what: func() string { return fmt.Sprintf("step %d of [%s]: the write threw (%s), but the property then holds the written value %s", j, q, mk.msg, d) },
 						step: j})
 				}
 			}
@@ -222,23 +222,26 @@ func word(accepted bool) string {
 }
 
 func mismatch(q sequence, j int, c classSpec, p int, via string, own, b, val int8, exp, obs, pred bool, mk marker) disagreement {
-	inst := fmt.Sprintf("%s (parameter %s = %s)", c.name, c.params[p], typeNames[own])
-	base := fmt.Sprintf("step %d of [%s]: a %s value written to property %s of an instance of %s through %s was %s, expected %s",
-		j, q, valNames[val], c.props[p], inst, via, word(obs), word(exp))
-	if mk.msg != "" {
-		base += " (message: " + mk.msg + ")"
+	base := func() string {
+		inst := fmt.Sprintf("%s (parameter %s = %s)", c.name, c.params[p], typeNames[own])
+		t := fmt.Sprintf("step %d of [%s]: a %s value written to property %s of an instance of %s through %s was %s, expected %s",
+			j, q, valNames[val], c.props[p], inst, via, word(obs), word(exp))
+		if mk.msg != "" {
+			t += " (message: " + mk.msg + ")"
+		}
+		return t
 	}
 	if b != own && obs == pred {
 		return disagreement{
-			key: fmt.Sprintf("shared-decl/first-lookup-wins/class=%s/prop=%s/own=%s/bound=%s/value=%s/via=%s",
-				c.name, c.props[p], typeNames[own], typeNames[b], valNames[val], via),
-			what: base + fmt.Sprintf("; the declaration of $%s was first looked up through an instance with %s = %s and behaves as %s for every instance",
-				c.props[p], c.params[p], typeNames[b], typeNames[b]),
+			key: "shared-decl/first-lookup-wins/class=" + c.name + "/prop=" + c.props[p] + "/own=" + typeNames[own] + "/bound=" + typeNames[b] + "/value=" + valNames[val] + "/via=" + via,
+			what: func() string {
+				return base() + fmt.Sprintf("; the declaration of $%s was first looked up through an instance with %s = %s and behaves as %s for every instance",
+					c.props[p], c.params[p], typeNames[b], typeNames[b])
+			},
 			step: j}
 	}
 	return disagreement{
-		key: fmt.Sprintf("accept-mismatch/class=%s/prop=%s/own=%s/value=%s/via=%s/observed=%s",
-			c.name, c.props[p], typeNames[own], valNames[val], via, word(obs)),
+		key:  "accept-mismatch/class=" + c.name + "/prop=" + c.props[p] + "/own=" + typeNames[own] + "/value=" + valNames[val] + "/via=" + via + "/observed=" + word(obs),
 		what: base,
 		step: j}
 }
